@@ -327,7 +327,11 @@ func check(s *codecx.Schema, c setCase) (fails []vf.Failure, built int) {
 			continue
 		}
 		built++
-		fails = append(fails, checkProps(root, md)...)
+		if f := vf.GuardTimed("ClientProperties", callLimit, func() { fails = append(fails, checkProps(root, md)...) }); f != nil {
+			f.Detail += " (" + string(md.FullName()) + ")"
+			fails = append(fails, *f)
+			continue
+		}
 
 		var r j5reflect.Root
 		var rerr error
